@@ -142,7 +142,7 @@ def run(tier, seed):
     log("  dumped %d tables from the compiled code in %.1fs" % (len(tables), time.time() - t0))
 
     # ---- validate every row with TLC
-    chunks, kinds, distinct, samples, nrows = [], {}, set(), [], 0
+    chunks, kinds, phases, distinct, samples, nrows = [], {}, {}, set(), [], 0
     for b in BUILDS:
         cs, lines = split_table(tables[b], od, b)
         chunks += [(b, cp, base) for cp, base in cs]
@@ -152,6 +152,10 @@ def run(tier, seed):
             m = re.match(r'\{"k":"(\w+)"', l)
             k = m.group(1) if m else "crash"
             kinds[k] = kinds.get(k, 0) + 1
+            if k == "bin":
+                mp = re.search(r'"ph":"(\w+)"', l[:40])
+                ph = mp.group(1) if mp else "asc"
+                phases[ph] = phases.get(ph, 0) + 1
             if k not in ("cfg", "end", "binsize"):
                 distinct.add(hash((b, l)))
             if b == BUILDS[1]:
@@ -224,11 +228,16 @@ def run(tier, seed):
                 "point of the theorem domain evaluated by TLC over the transcription MiBins; distinct_nontrivial counts distinct "
                 "(build, row) pairs of kinds other than cfg/binsize/end",
         "rows_validated": consumed, "rows_total": nrows, "rows_by_kind": dict(sorted(kinds.items())),
+        "bin_rows_by_pass": dict(sorted(phases.items())),
         "builds": BUILDS, "tables": len(tables),
         "states": states, "transitions": trans, "traces_validated_against_impl": len(tables),
         "theorem_domains": mc_samples,
-        "size_domain": "every request size 0..131073 (= 2*MI_MEDIUM_OBJ_SIZE_MAX+1) really allocated in each build, class boundaries of "
-                       "_mi_os_good_alloc_size up to 48 MiB really allocated, value classes up to PTRDIFF_MAX by function call",
+        "size_domain": "every request size 0..131073 (= 2*MI_MEDIUM_OBJ_SIZE_MAX+1) really allocated in each build in a first ascending sweep (asc); "
+                       "the same (n, good size, served block) rows again in heaps with history: second ascending pass with live blocks of every "
+                       "class (asc2), descending pass (desc), seeded random order with bursts and interleaved frees (rnd), and after the "
+                       "address section (late) -- " + ("every size in each pass" if thorough else "all n <= 1100 plus one word either side of every "
+                       "class / page-rounding boundary in each pass") + "; class boundaries of _mi_os_good_alloc_size up to 48 MiB really "
+                       "allocated, value classes up to PTRDIFF_MAX by function call",
         "address_domain": ("every block of every page with <= 1024 blocks and of the first/last page of denser sizes, 6 interior offsets"
                            if thorough else "block indices {0,1,2,mid,last-1,last}+4 seeded, interior offsets {0,1,bs/2,bs-1}")
                           + "; pages of every reachable block size at several positions of a segment, large and huge pages, aligned allocations",
